@@ -18,6 +18,12 @@ def harness_json(ctx, command, cfg, name=None, package="vh", **kw):
         return json.load(f), tracep
 
 
+def _trace_module(module):
+    """spec/trace/<module>.tla, or spec/extra/<module>.tla for the modules beyond the listed properties."""
+    p = os.path.join(vlib.SPEC, "trace", module + ".tla")
+    return p if os.path.exists(p) else os.path.join(vlib.SPEC, "extra", module + ".tla")
+
+
 def validate_trace(ctx, module, trace_path, env=None, timeout=3000):
     """TLC trace validation with spec/trace/<module>.tla; the trace must be consumed completely."""
     envx = {"TRACE": trace_path}
@@ -25,7 +31,7 @@ def validate_trace(ctx, module, trace_path, env=None, timeout=3000):
         envx.update(env)
     if os.path.getsize(trace_path) == 0:
         raise vlib.ToolError("empty trace for %s" % module)
-    res = vlib.run_tlc(os.path.join(vlib.SPEC, "trace", module + ".tla"), workdir=ctx.path("tlc"), workers=1,
+    res = vlib.run_tlc(_trace_module(module), workdir=ctx.path("tlc"), workers=1,
                        env_extra=envx, jvm=TRACE_JVM, timeout=timeout)
     if res.errors or not res.finished:
         raise vlib.ToolError("%s trace validation did not run: %s\n%s" % (module, res.errors[:2], res.stdout_tail[-2000:]))
@@ -91,7 +97,7 @@ def validate_trace_sharded(ctx, module, trace_path, shards=8, env=None, timeout=
             envx = {"TRACE": p}
             if env:
                 envx.update(env)
-            res = vlib.run_tlc(os.path.join(vlib.SPEC, "trace", module + ".tla"), workdir=ctx.path("tlc%d" % k), workers=1,
+            res = vlib.run_tlc(_trace_module(module), workdir=ctx.path("tlc%d" % k), workers=1,
                                env_extra=envx, jvm=["-Xss1g", "-Xmx3g", "-Dtlc2.tool.queue.IStateQueue=StateDeque"],
                                timeout=timeout)
             if res.errors or not res.finished:
